@@ -235,6 +235,15 @@ fn facts_from_model(ex: &Exec, report: &mut RunReport) {
 
 pub fn finish_report(ex: Exec, mut report: RunReport, sc: &Scenario, final_digest: u64) -> RunReport {
   facts_from_model(&ex, &mut report);
+  if let Some((_, rest)) = sc.profile.split_once("/enumerated ") {
+    for part in rest.split_whitespace() {
+      if let Some((k, val)) = part.split_once('=')
+        && let Ok(n) = val.parse::<u64>()
+      {
+        report.facts.insert(format!("enum.{k}"), n);
+      }
+    }
+  }
   report.updates = ex.updates;
   report.faults.insert("reopen".into(), ex.reopens);
   let sim = ex.finish();
